@@ -1,13 +1,135 @@
 // monitors.go — property predicates evaluated directly on the real application's state after every
-// operation (independent of the Coq model; used to exhibit a failing history on the implementation).
+// operation (independent of the Coq model; they exhibit a failing history on the implementation).
+// Each violation line starts with the property id.
 package main
 
-type Monitors struct{}
+import (
+	"fmt"
+	"math/big"
+	"strings"
 
-func NewMonitors() *Monitors { return &Monitors{} }
+	sdkmath "cosmossdk.io/math"
+	abci "github.com/cometbft/cometbft/abci/types"
+	authtypes "github.com/cosmos/cosmos-sdk/x/auth/types"
 
-func (m *Monitors) Check(c *Chain, o Op, res string) []string { return nil }
+	minttypes "github.com/sge-network/sge/x/mint/types"
+)
+
+type Monitors struct {
+	prevSupply sdkmath.Int
+	havePrev   bool
+	// C13 phase accounting
+	phStep   int32
+	phProv   sdkmath.LegacyDec
+	phSum    sdkmath.Int
+	phBlocks int64
+	phFirst  bool // phase observed from its first block
+	evals    int
+}
+
+func NewMonitors() *Monitors { return &Monitors{phStep: -99} }
+
+func attr(ev abci.Event, key string) string {
+	for _, a := range ev.Attributes {
+		if a.Key == key {
+			return a.Value
+		}
+	}
+	return ""
+}
+
+func amountOf(s string) *big.Int {
+	s = strings.TrimSuffix(s, Denom)
+	v, ok := new(big.Int).SetString(s, 10)
+	if !ok {
+		return big.NewInt(0)
+	}
+	return v
+}
+
+func (m *Monitors) Check(c *Chain, o Op, res string) []string {
+	var v []string
+	v = append(v, m.c13(c, o, res)...)
+	m.evals++
+	return v
+}
 
 func (m *Monitors) OnPanic(c *Chain, o Op, res string) []string {
-	return []string{"C05 block processing aborted: " + res}
+	return []string{"C05 block processing aborted in " + o.Kind + ": " + trunc(res, 300)}
+}
+
+func trunc(s string, n int) string {
+	s = strings.ReplaceAll(s, "\n", " ")
+	if len(s) > n {
+		return s[:n]
+	}
+	return s
+}
+
+// ---- C13 ---------------------------------------------------------------------------------------
+func (m *Monitors) c13(c *Chain, o Op, res string) []string {
+	var v []string
+	sup := c.Supply()
+	if !m.havePrev {
+		// supply before the first block = genesis supply
+		g, _ := sdkmath.NewIntFromString(c.SupplyAtGenesis())
+		m.prevSupply = g
+		m.havePrev = true
+	}
+	delta := sup.Sub(m.prevSupply)
+	if o.Kind == "BEGIN" {
+		minted := big.NewInt(0)
+		toFee := big.NewInt(0)
+		mintAddr := c.ModAddr(minttypes.ModuleName).String()
+		feeAddr := c.ModAddr(authtypes.FeeCollectorName).String()
+		for _, ev := range c.LastBegin.Events {
+			switch ev.Type {
+			case "mint":
+				minted.Add(minted, amountOf(attr(ev, "amount")))
+			case "transfer":
+				if attr(ev, "sender") == mintAddr && attr(ev, "recipient") == feeAddr {
+					toFee.Add(toFee, amountOf(attr(ev, "amount")))
+				}
+			}
+		}
+		if delta.BigInt().Cmp(minted) != 0 {
+			v = append(v, fmt.Sprintf("C13 supply grew by %s in BeginBlock but the mint event says %s", delta, minted))
+		}
+		if toFee.Cmp(minted) != 0 {
+			v = append(v, fmt.Sprintf("C13 minted %s but %s was transferred to the fee collector", minted, toFee))
+		}
+		// phase accounting
+		ctx := c.Ctx()
+		mt := c.App.MintKeeper.GetMinter(ctx)
+		p := c.App.MintKeeper.GetParams(ctx)
+		if mt.PhaseStep != m.phStep {
+			// previous phase finished: compare if observed completely
+			if m.phFirst && m.phStep >= 1 && int(m.phStep) <= len(p.Phases) {
+				B := p.Phases[m.phStep-1].YearCoefficient.Mul(sdkmath.LegacyNewDec(p.BlocksPerYear)).TruncateInt().Int64()
+				if B == m.phBlocks && B >= 1 {
+					// |sum*1e18 - prov| < 1e18 + B
+					d := new(big.Int).Sub(new(big.Int).Mul(m.phSum.BigInt(), prec), m.phProv.BigInt())
+					d.Abs(d)
+					bound := new(big.Int).Add(prec, big.NewInt(B))
+					if d.Cmp(bound) >= 0 {
+						v = append(v, fmt.Sprintf("C13 phase %d minted %s over %d blocks but provisions were %s", m.phStep, m.phSum, B, m.phProv))
+					}
+				}
+			}
+			m.phStep = mt.PhaseStep
+			m.phProv = mt.PhaseProvisions
+			m.phSum = sdkmath.ZeroInt()
+			m.phBlocks = 0
+			m.phFirst = true
+		}
+		m.phSum = m.phSum.Add(sdkmath.NewIntFromBigInt(minted))
+		m.phBlocks++
+		if mt.PhaseStep == minttypes.EndPhaseAlias && minted.Sign() != 0 {
+			v = append(v, fmt.Sprintf("C13 minted %s after the last phase", minted))
+		}
+	} else if !delta.IsZero() {
+		v = append(v, fmt.Sprintf("C13 supply changed by %s during %s", delta, o.Kind))
+	}
+	m.prevSupply = sup
+	return v
 }
